@@ -39,6 +39,8 @@ type ScriptOpts struct {
 	SetLast   bool    // include SetLastPoint noise
 	Missing   bool    // include MissingNodes calls as steps
 	Empty     bool    // include colluding empty-proposal ballots
+	SufChange float64 // probability per height that the suffrage changes (a join or a leave)
+	PermHide  float64 // probability per height that the suffrage of the previous voteproofs' height is hidden (revealed late or never)
 }
 
 // Gen builds a script. Every ballot in it passed IsValid(networkID); ballots
@@ -94,19 +96,23 @@ func (g *Gen) newExpel(h base.Height, targets []int, signers []int, tag string) 
 	}
 }
 
-func (g *Gen) allIdx() []int {
-	v := make([]int, g.W.N())
-	for i := range v {
-		v[i] = i
-	}
-	return v
+// idxAt: member indices of the suffrage that decides height h (the suffrage of h-1).
+func (g *Gen) idxAt(h base.Height) []int { return g.W.IdxAt(h - 1) }
+
+func (g *Gen) sizeAt(h base.Height) int { return len(g.W.IdxAt(h - 1)) }
+
+// anyMember picks a member of the suffrage that decides height h.
+func (g *Gen) anyMember(h base.Height) (base.LocalNode, int) {
+	idx := g.idxAt(h)
+	i := idx[g.R.Intn(len(idx))]
+	return g.W.Members[i], i
 }
 
 // validExpel picks k targets (never the local node when it is a member).
 func (g *Gen) validExpel(h base.Height, k int) *ExpelSpec {
-	n := g.W.N()
+	all := g.idxAt(h)
 	var cands []int
-	for i := 0; i < n; i++ {
+	for _, i := range all {
 		if i != g.W.LocalIdx {
 			cands = append(cands, i)
 		}
@@ -117,7 +123,7 @@ func (g *Gen) validExpel(h base.Height, k int) *ExpelSpec {
 	}
 	t := append([]int{}, cands[:k]...)
 	var signers []int
-	for i := 0; i < n; i++ {
+	for _, i := range all {
 		isT := false
 		for _, x := range t {
 			if x == i {
@@ -132,30 +138,30 @@ func (g *Gen) validExpel(h base.Height, k int) *ExpelSpec {
 }
 
 func (g *Gen) hostileExpel(h base.Height) (*ExpelSpec, string) {
-	n := g.W.N()
-	t := g.R.Intn(n)
+	all := g.idxAt(h)
+	t := all[g.R.Intn(len(all))]
 	switch g.R.Intn(5) {
 	case 0: // expired
-		e := g.newExpel(h, []int{t}, g.allIdx(), "expired")
+		e := g.newExpel(h, []int{t}, all, "expired")
 		e.Start, e.End = h-2, h-1
 		return e, "expired"
 	case 1: // unknown target
-		e := g.newExpel(h, []int{-1}, g.allIdx(), "unknown-target")
+		e := g.newExpel(h, []int{-1}, all, "unknown-target")
 		return e, "unknown-target"
 	case 2: // under-signed: one sign only
-		s := (t + 1) % n
+		s := all[g.R.Intn(len(all))]
 		e := g.newExpel(h, []int{t}, []int{s}, "undersigned")
 		return e, "undersigned"
 	case 3: // signed by a node outside the suffrage too
-		e := g.newExpel(h, []int{t}, g.allIdx(), "outsider-signed")
+		e := g.newExpel(h, []int{t}, all, "outsider-signed")
 		e.OutsiderSigns = true
 		return e, "outsider-signed"
 	default: // expels the local node (the box ignores such ballots)
 		if g.W.LocalIdx >= 0 {
-			e := g.newExpel(h, []int{g.W.LocalIdx}, g.allIdx(), "expel-local")
+			e := g.newExpel(h, []int{g.W.LocalIdx}, all, "expel-local")
 			return e, "expel-local"
 		}
-		e := g.newExpel(h, []int{t}, g.allIdx(), "valid1")
+		e := g.newExpel(h, []int{t}, all, "valid1")
 		return e, "valid"
 	}
 }
@@ -180,15 +186,25 @@ func (g *Gen) expelIsClean(ex *ExpelSpec, h base.Height) bool {
 // prevVP is the voteproof an INIT ballot of point p carries.
 func (g *Gen) prevVP(p base.Point, hostile string) base.Voteproof {
 	w := g.W
-	signers := w.Members
+	// the point of the carried voteproof and the suffrage that decided it
+	vpHeight := p.Height()
+	if p.Round() == 0 {
+		vpHeight = p.Height() - 1
+	}
+	idx := g.idxAt(vpHeight)
+	signers := w.MembersAt(vpHeight - 1)
 	th := w.Threshold
 	switch hostile {
 	case "few":
-		signers = w.Members[:1]
+		signers = signers[:1]
 	case "outsider":
-		signers = append(append([]base.LocalNode{}, w.Members[:w.N()-1]...), w.Outsiders[0])
+		signers = append(append([]base.LocalNode{}, signers[:len(signers)-1]...), w.Outsiders[0])
 	case "imposter":
-		signers = append(append([]base.LocalNode{}, w.Members[:w.N()-1]...), w.Imposters[w.N()-1])
+		signers = append(append([]base.LocalNode{}, signers[:len(signers)-1]...), w.Imposters[idx[len(idx)-1]])
+	case "nextsuf":
+		// signed by the suffrage of the ballot's height instead of the
+		// voteproof's own (differs when a node joined or left in between)
+		signers = w.MembersAt(p.Height() - 1)
 	case "lowth":
 		th = base.Threshold(51)
 	case "maxth":
@@ -201,6 +217,9 @@ func (g *Gen) prevVP(p base.Point, hostile string) base.Voteproof {
 			// a majority ACCEPT voteproof of an older height whose new block
 			// equals the ballot's previous block (all that IsValid asks for)
 			bh := p.Height() - 1
+			if hostile == "otherheight" {
+				signers = w.MembersAt(p.Height() - 4) // the suffrage that decided height h-3
+			}
 			return w.voteproofACCEPTWithBlock(base.NewPoint(p.Height()-3, 0), bh, signers, th)
 		}
 		return w.Voteproof(VPSpec{Stage: base.StageACCEPT, Point: pp, Variant: "A", Signers: signers, Threshold: th, Tag: hostile})
@@ -246,7 +265,7 @@ func (w *World) voteproofACCEPTWithBlock(p base.Point, blockOf base.Height, sign
 // confirm ballots of point p carry.
 func (g *Gen) initVP(p base.Point, variant string, ex *ExpelSpec, hostile string) base.Voteproof {
 	w := g.W
-	signers := w.MembersExcept(ex)
+	signers := w.MembersExceptAt(p.Height()-1, ex)
 	th := w.Threshold
 	switch hostile {
 	case "few":
@@ -271,7 +290,7 @@ func (g *Gen) pickHostileVP() string {
 		}
 		return ""
 	}
-	return []string{"few", "outsider", "imposter", "lowth", "otherheight"}[g.R.Intn(5)]
+	return []string{"few", "outsider", "imposter", "lowth", "otherheight", "nextsuf", "nextsuf"}[g.R.Intn(7)]
 }
 
 // ---- ballots
@@ -382,11 +401,13 @@ func (g *Gen) noise(c stageCtx) {
 	case 1: // outsider votes
 		g.add(g.voteStep(c, w.Outsiders[r.Intn(2)], "A", "", "outsider", false))
 	case 2: // a member's address with another key
-		g.add(g.voteStep(c, w.Imposters[r.Intn(w.N())], "A", "", "imposter", false))
+		_, mi := g.anyMember(h)
+		g.add(g.voteStep(c, w.Imposters[mi], "A", "", "imposter", false))
 	case 3: // old point
 		if h-1 > w.H0 {
 			oc := stageCtx{stage: "accept", p: base.NewPoint(h-1, g.acceptRound[h-1])}
-			g.add(g.voteStep(oc, w.Members[r.Intn(w.N())], "A", "", "old-point", true))
+			m, _ := g.anyMember(h - 1)
+			g.add(g.voteStep(oc, m, "A", "", "old-point", true))
 		}
 	case 4: // future point: next round or next height
 		fc := stageCtx{stage: "init", p: c.p.NextRound()}
@@ -394,7 +415,8 @@ func (g *Gen) noise(c stageCtx) {
 			g.acceptRound[h] = c.p.Round()
 			fc.p = base.NewPoint(h+1, 0)
 		}
-		g.add(g.voteStep(fc, w.Members[r.Intn(w.N())], []string{"A", "B"}[r.Intn(2)], g.pickHostileVP(), "future-point", true))
+		m, _ := g.anyMember(fc.p.Height())
+		g.add(g.voteStep(fc, m, []string{"A", "B"}[r.Intn(2)], g.pickHostileVP(), "future-point", true))
 	case 5:
 		if g.O.SetLast {
 			// a point around the current one
@@ -412,7 +434,7 @@ func (g *Gen) noise(c stageCtx) {
 			}
 		}
 	case 6:
-		if g.O.Stuck && w.N() >= 2 {
+		if g.O.Stuck && g.sizeAt(h) >= 2 {
 			// expels for one or two random non-local members, as the stuck
 			// resolver asks (start = end = height)
 			k := 1 + r.Intn(2)
@@ -428,27 +450,31 @@ func (g *Gen) noise(c stageCtx) {
 	case 7:
 		g.add(Step{Op: "sleep", Desc: "sleep 3ms (ticker)"})
 	case 8: // hostile expels on a ballot
-		if c.stage != "sc" && w.N() >= 2 {
+		if c.stage != "sc" && g.sizeAt(h) >= 2 {
 			ex, tag := g.hostileExpel(h)
 			hc := c
 			hc.ex = ex
 			hostile := ""
-			g.add(g.voteStep(hc, w.Members[r.Intn(w.N())], "A", hostile, "hostile-expel:"+tag, tag == "valid"))
+			m, _ := g.anyMember(h)
+			g.add(g.voteStep(hc, m, "A", hostile, "hostile-expel:"+tag, tag == "valid"))
 		}
 	case 9: // hostile embedded voteproof on an otherwise honest ballot
-		g.add(g.voteStep(c, w.Members[r.Intn(w.N())], "A", []string{"few", "outsider", "imposter", "lowth", "otherheight"}[r.Intn(5)], "hostile-vp", true))
+		m, _ := g.anyMember(h)
+		g.add(g.voteStep(c, m, "A", []string{"few", "outsider", "imposter", "lowth", "otherheight", "nextsuf"}[r.Intn(6)], "hostile-vp", true))
 	case 10:
 		if g.O.Missing {
 			g.add(Step{Op: "missing", SP: sp, Desc: fmt.Sprintf("missingnodes %s", sp)})
 		}
 	case 11:
 		if g.O.Empty && c.stage == "init" {
-			g.add(g.voteStep(c, w.Members[r.Intn(w.N())], "empty", "", "empty-proposal", true))
+			m, _ := g.anyMember(h)
+			g.add(g.voteStep(c, m, "empty", "", "empty-proposal", true))
 		}
 	case 12: // suffrage confirm out of the blue (no expel voteproof emitted before)
-		if w.N() >= 3 {
+		if g.sizeAt(h) >= 3 {
 			ex := g.validExpel(h, 1)
-			g.add(g.scBallot(w.Members[r.Intn(w.N())], c.p, "A", ex, "", "sc-noise", true))
+			m, _ := g.anyMember(h)
+			g.add(g.scBallot(m, c.p, "A", ex, "", "sc-noise", true))
 		}
 	default:
 		g.add(Step{Op: "count", Desc: "count"})
@@ -459,7 +485,7 @@ func (g *Gen) noise(c stageCtx) {
 func (g *Gen) stage(c stageCtx, draw bool) {
 	w := g.W
 	r := g.R
-	voters := w.MembersExcept(c.ex)
+	voters := w.MembersExceptAt(c.p.Height()-1, c.ex)
 	order := r.Perm(len(voters))
 	// the expelled nodes sometimes vote as well (plain ballots)
 	var expelled []base.LocalNode
@@ -527,12 +553,27 @@ func (g *Gen) Flow() []Step {
 	w := g.W
 	r := g.R
 	g.acceptRound[w.H0] = 0
+	g.evolve()
 	if r.Intn(2) == 0 {
 		lp, _ := isaac.NewLastPoint(base.NewStagePoint(base.NewPoint(w.H0, 0), base.StageACCEPT), true, false)
 		g.add(Step{Op: "setlast", Last: lp, Desc: "setlast initial " + lp.StagePoint.String()})
 	}
+	var lateReveal []base.Height
 	for hi := 1; hi <= g.O.Heights; hi++ {
 		h := w.H0 + base.Height(hi)
+		if r.Float64() < g.O.PermHide {
+			// the suffrage that decided the previous height (the one embedded
+			// voteproofs of height h-1 are to be judged with) is not known to
+			// the local node; it may learn it late or never
+			g.add(Step{Op: "hide", Height: h - 2, Desc: fmt.Sprintf("hide suffrage of height %d", h-2)})
+			if r.Intn(2) == 0 {
+				lateReveal = append(lateReveal, h-2)
+			}
+		}
+		for len(lateReveal) > 0 && lateReveal[0] < h-2 {
+			g.add(Step{Op: "reveal", Height: lateReveal[0], Desc: fmt.Sprintf("reveal suffrage of height %d", lateReveal[0])})
+			lateReveal = lateReveal[1:]
+		}
 		deferred := r.Float64() < g.O.Deferred
 		if deferred {
 			g.add(Step{Op: "hide", Height: h - 1, Desc: fmt.Sprintf("hide suffrage of height %d", h-1)})
@@ -541,9 +582,9 @@ func (g *Gen) Flow() []Step {
 		for {
 			p := base.NewPoint(h, round)
 			var ex *ExpelSpec
-			if w.N() >= 3 && r.Float64() < g.O.ExpelProb {
+			if g.sizeAt(h) >= 3 && r.Float64() < g.O.ExpelProb {
 				k := 1
-				if w.N() >= 5 && r.Intn(3) == 0 {
+				if g.sizeAt(h) >= 5 && r.Intn(3) == 0 {
 					k = 2
 				}
 				ex = g.validExpel(h, k)
@@ -596,6 +637,91 @@ func (g *Gen) DirectedINIT(i int, p base.Point, variant string, ex *ExpelSpec) S
 func (g *Gen) DirectedINITBy(n base.LocalNode, p base.Point, variant string, ex *ExpelSpec) Step {
 	before := len(g.Steps)
 	g.add(g.initBallot(n, p, variant, ex, "", "directed", false))
+	if len(g.Steps) == before {
+		return Step{Op: "count", Desc: "count (directed ballot was invalid)"}
+	}
+	st := g.Steps[len(g.Steps)-1]
+	g.Steps = g.Steps[:before]
+	return st
+}
+
+// evolve draws the suffrage table: joins and leaves between consecutive
+// heights (the local node never leaves).
+func (g *Gen) evolve() {
+	if g.O.SufChange <= 0 || g.W.N() < 3 {
+		return
+	}
+	w := g.W
+	r := g.R
+	cur := make([]int, w.N())
+	for i := range cur {
+		cur[i] = i
+	}
+	drop := func() bool {
+		var c []int
+		for p, i := range cur {
+			if i != w.LocalIdx {
+				c = append(c, p)
+			}
+		}
+		if len(cur) <= 2 || len(c) == 0 {
+			return false
+		}
+		p := c[r.Intn(len(c))]
+		cur = append(append([]int{}, cur[:p]...), cur[p+1:]...)
+		return true
+	}
+	join := func() bool {
+		in := map[int]bool{}
+		for _, i := range cur {
+			in[i] = true
+		}
+		var out []int
+		for i := 0; i < w.N(); i++ {
+			if !in[i] {
+				out = append(out, i)
+			}
+		}
+		if len(out) == 0 {
+			return false
+		}
+		cur = append(cur, out[r.Intn(len(out))])
+		sortInts(cur)
+		return true
+	}
+	// leave room for a join
+	if r.Intn(3) > 0 {
+		drop()
+	}
+	w.SetSuffrageFrom(0, cur)
+	for h := w.H0 - 1; h <= w.H0+base.Height(g.O.Heights)+1; h++ {
+		if r.Float64() >= g.O.SufChange {
+			continue
+		}
+		changed := false
+		if r.Intn(2) == 0 {
+			changed = join() || drop()
+		} else {
+			changed = drop() || join()
+		}
+		if changed {
+			w.SetSuffrageFrom(h, cur)
+		}
+	}
+}
+
+func sortInts(v []int) {
+	for i := 1; i < len(v); i++ {
+		for j := i; j > 0 && v[j] < v[j-1]; j-- {
+			v[j], v[j-1] = v[j-1], v[j]
+		}
+	}
+}
+
+// DirectedINITVP is DirectedINITBy with a chosen embedded-voteproof variant.
+func (g *Gen) DirectedINITVP(n base.LocalNode, p base.Point, variant, vpHostile string) Step {
+	before := len(g.Steps)
+	g.add(g.initBallot(n, p, variant, nil, vpHostile, "directed", true))
 	if len(g.Steps) == before {
 		return Step{Op: "count", Desc: "count (directed ballot was invalid)"}
 	}
